@@ -2254,6 +2254,31 @@ fn mpmc_close_vs_first_send_poll_cap1() {
     mpmc_close_vs_first_send_poll(1)
 }
 
+/// A receiver is parked; try_send(1) on one thread races with a barging try_receive() on another;
+/// afterwards a second value is sent. A value is then buffered while the receiver is pending, so it
+/// must hold a wake-up (from the first send - whether or not the barger took that value - or from
+/// the second).
+fn mpmc_barger_vs_notified() {
+    let (tx, rx) = sh::generic_channel::<LoomRaw, u32, FixedHeapBuf<u32>>(2);
+    let _ = rx.try_receive();
+    let mut r = Box::pin(rx.receive());
+    let (w, c) = counting_waker();
+    assert!(r.as_mut().poll(&mut Context::from_waker(&w)).is_pending());
+    let tx1 = tx.clone();
+    let h1 = spawn(move || {
+        tx1.try_send(1).unwrap();
+    });
+    let rx2 = rx.clone();
+    let h2 = spawn(move || rx2.try_receive().ok());
+    h1.join().unwrap();
+    let barged = h2.join().unwrap();
+    tx.try_send(2).unwrap();
+    assert!(c.load(Ordering::SeqCst) > 0, "C10: a value is buffered and a receiver is pending, but it has not been woken since its last poll");
+    let want = if barged.is_some() { 2 } else { 1 };
+    assert_eq!(r.as_mut().poll(&mut Context::from_waker(&w)), Poll::Ready(Some(want)), "C09/C10: the woken receiver does not get the oldest buffered value");
+    drop(r);
+}
+
 /// two threads close the channel: once close() has returned (with either status) on a thread,
 /// a send from that thread must fail
 fn mpmc_double_close() {
@@ -2910,6 +2935,7 @@ const SCENARIOS: &[(&str, &str, Scenario)] = &[
     ("state_clone_exclusive", "C13,C16", state_clone_exclusive),
     ("mpmc_close_vs_first_send_poll_cap0", "wk:C08,C10,C11", mpmc_close_vs_first_send_poll_cap0),
     ("mpmc_close_vs_first_send_poll_cap1", "wk:C08,C10,C11", mpmc_close_vs_first_send_poll_cap1),
+    ("mpmc_barger_vs_notified", "wk:C09,C10", mpmc_barger_vs_notified),
     ("mpmc_double_close", "hook:C11", mpmc_double_close),
     ("mpmc_orphan_recv", "hook:wk:C10,C11", mpmc_orphan_recv),
     ("mpmc_orphan_send", "hook:wk:C08,C10,C11", mpmc_orphan_send),
